@@ -26,6 +26,9 @@ pub const PLACEMENTS: &[Option<&str>] = &[
     Some("d/x.ts"),
     Some("../up/"),
     Some("d/e/"),
+    Some("d/x.js.ts"),
+    // a second spelling of `s.ts`: two types can share a file under different `export_to` strings
+    Some("d/../s.ts"),
 ];
 
 pub fn loc_of(name: &str, placement: Option<&str>) -> String {
@@ -45,6 +48,8 @@ struct BaseCfg {
 const BASES: &[BaseCfg] = &[
     BaseCfg { label: "default", make: |_| (None, None, "bindings") },
     BaseCfg { label: "to-rel-dotted", make: |_| (None, Some("./x/../out".into()), "out") },
+    // the base directory reached through a symbolic link (`lnk` -> `real`, made by `one_case`)
+    BaseCfg { label: "to-through-symlink", make: |_| (None, Some("lnk/out".into()), "real/out") },
     BaseCfg { label: "env-rel-deep", make: |_| (Some("out/deep".into()), None, "out/deep") },
     BaseCfg { label: "env-abs", make: |wd| (Some(wd.join("out").to_string_lossy().into_owned()), None, "out") },
     BaseCfg { label: "to-abs", make: |wd| (None, Some(wd.join("out").to_string_lossy().into_owned()), "out") },
@@ -94,26 +99,26 @@ pub fn run(args: &[String]) {
     let p = |idx: &[usize]| -> Vec<Option<&'static str>> { idx.iter().map(|&i| PLACEMENTS[i]).collect() };
     let keys: Vec<(&str, Vec<Option<&'static str>>)> = if thorough {
         vec![
-            ("A", p(&[0, 1, 2, 3, 4, 5])),
-            ("B", p(&[0, 1, 2, 3, 4, 5])),
+            ("A", p(&[0, 1, 2, 3, 4, 5, 6, 7])),
+            ("B", p(&[0, 1, 2, 3, 4, 5, 6, 7])),
             ("C", p(&[0, 1, 2, 3, 4])),
-            ("B2", p(&[0, 2, 4])),
+            ("B2", p(&[0, 2, 4, 6])),
             ("G", p(&[0, 3, 2])),
             ("K", p(&[0, 2])),
             ("Y", p(&[0, 2])),
         ]
     } else {
         vec![
-            ("A", p(&[0, 1, 2, 3, 4, 5])),
-            ("B", p(&[0, 1, 2, 3, 4, 5])),
+            ("A", p(&[0, 1, 2, 3, 4, 5, 6, 7])),
+            ("B", p(&[0, 1, 2, 3, 4, 5, 6, 7])),
             ("C", p(&[0, 2, 3])),
-            ("B2", p(&[0, 2])),
+            ("B2", p(&[0, 2, 6])),
             ("G", p(&[0, 3])),
             ("K", p(&[0])),
             ("Y", p(&[0, 2])),
         ]
     };
-    let bases: Vec<&BaseCfg> = if thorough { BASES.iter().collect() } else { BASES[..2].iter().collect() };
+    let bases: Vec<&BaseCfg> = if thorough { BASES.iter().collect() } else { BASES[..3].iter().collect() };
     let pre_kinds: &[&str] = if thorough { &["none", "unrelated", "at-targets"] } else { &["unrelated"] };
 
     // all assignments
@@ -206,6 +211,10 @@ fn one_case(
     std::fs::create_dir_all(wd.join("x")).unwrap();
     std::env::set_current_dir(&wd).unwrap();
     let (env, to, d) = (base.make)(&wd);
+    if base.label.ends_with("symlink") {
+        std::fs::create_dir_all(wd.join("real")).unwrap();
+        std::os::unix::fs::symlink("real", wd.join("lnk")).unwrap();
+    }
     match &env {
         Some(v) => std::env::set_var("TS_RS_EXPORT_DIR", v),
         None => std::env::remove_var("TS_RS_EXPORT_DIR"),
@@ -348,7 +357,13 @@ fn one_case(
             for n in &i.names {
                 *imported.entry(n.clone()).or_default() += 1;
             }
-            let errs = spec_syntax_errors(&i.spec, esm);
+            // a dependency file whose stem itself ends in `.js` (`x.js.ts`) is named `./x.js` even
+            // without ESM imports: the `.js`-iff-ESM clause cannot apply to it
+            let stem_is_js = i.names.iter().any(|n| locs.get(n).map_or(false, |l| l.ends_with(".js.ts")));
+            let mut errs = spec_syntax_errors(&i.spec, esm);
+            if stem_is_js && !esm {
+                errs.retain(|e| !e.contains("ends in .js although ESM imports are off"));
+            }
             if !errs.is_empty() {
                 rep.violation(cls("C08", "specifier-syntax"), det(json!({"file": rel(p), "spec": i.spec, "problems": errs})));
                 continue;
